@@ -9,10 +9,11 @@ from __future__ import annotations
 import copy
 from datetime import date, timedelta, timezone
 from decimal import Decimal
+from fractions import Fraction
 from typing import Any, Dict, List, Optional
 
 from rpv.checks.inproc_util import candidate_days, clean_cut, get_ip, sched_from_json, sched_json
-from rpv.gen import METHODS, Profile, Q11, dstr, fmt_ts, history, parse_ts
+from rpv.gen import METHODS, Profile, Q11, assign_rows, dstr, fmt_ts, history, parse_ts
 from rpv.model import Model
 from rpv.workload import deepen
 from rpv.oracle.balance import is_valid, overdraft
@@ -22,7 +23,8 @@ LEVEL = "exploration"
 RULE = (
     "valid generated histories and their overdraft mutants: a debit inflated by {2e-10,1e-9,1e-6,1e-3,0.5,3}, by dust 5e-11 "
     "(unspecified zone), a debit moved before its funding (transient overdraft later refilled), a debit moved to another "
-    "account that does not hold the coins, rows shuffled so that sheet order != time order; x {-n off, -n on} x to-dates "
+    "account that does not hold the coins, a debit leaving its account 1e-11..5e-11 below zero followed by a real overdraft of that account, "
+    "(CLI) an acquisition whose crypto fee exceeds what its account holds, rows shuffled so that sheet order != time order; x {-n off, -n on} x to-dates "
     "before / after the overdraft x from-dates and from+to windows (balances cover all history up to the to-date, so a "
     "from-date never changes the verdict). Oracle per history: must-reject (an account is below -1e-10 once all rows of an instant are "
     "applied) / must-accept (no ordering of same-instant rows can overdraw) / unspecified (never alarms). Non-trivial = "
@@ -34,8 +36,8 @@ ASSUMPTIONS = [
     "inside one instant acquisitions are credited first, then transfers, then out-transactions are debited (as the pinned tree does): a disposal funded by a transfer of the same instant must be accepted",
 ]
 SETTINGS: Dict[str, Dict[str, Any]] = {
-    "quick": {"cases": 1600, "cli_cases": 48, "budget_s": 45, "minimums": {"must_reject_runs": 800, "must_accept_runs": 1500, "with_n_negative_reported": 300, "nontrivial": 800, "cli_runs": 8, "runs_with_from_date": 1500, "same_instant_transfer_then_sale_cases": 100}},
-    "thorough": {"cases": 60000, "cli_cases": 300, "budget_s": 300, "minimums": {"must_reject_runs": 30000, "must_accept_runs": 60000, "with_n_negative_reported": 10000, "nontrivial": 30000, "cli_runs": 150, "runs_with_from_date": 50000, "same_instant_transfer_then_sale_cases": 3000}},
+    "quick": {"cases": 1600, "cli_cases": 48, "budget_s": 45, "minimums": {"must_reject_runs": 800, "must_accept_runs": 1500, "with_n_negative_reported": 300, "nontrivial": 800, "cli_runs": 8, "runs_with_from_date": 1500, "same_instant_transfer_then_sale_cases": 100, "dust_then_real_overdraft_runs": 700, "cli_runs_with_in_fee_overdraft": 3}},
+    "thorough": {"cases": 60000, "cli_cases": 300, "budget_s": 300, "minimums": {"must_reject_runs": 30000, "must_accept_runs": 60000, "with_n_negative_reported": 10000, "nontrivial": 30000, "cli_runs": 150, "runs_with_from_date": 50000, "same_instant_transfer_then_sale_cases": 3000, "dust_then_real_overdraft_runs": 20000, "cli_runs_with_in_fee_overdraft": 15}},
 }
 PROFILES = [
     Profile(n_exchanges=2, n_holders=1, p_intra=0.25, tie_prob=0.3, max_events=16),
@@ -98,6 +100,33 @@ def mutants(hist: Dict[str, Any], rng: Any) -> List[Dict[str, Any]]:
             r = rng.choice(outs)
             r["ex"], r["ho"] = rng.choice([a for a in accounts if a != (r["ex"], r["ho"])])
             result.append(h)
+    # 4. a debit that leaves its account a tolerated 1e-11..5e-11 below zero, followed by a real overdraft of the same account
+    #    (the balance is already negative when the second debit arrives: the check is on the new balance, not on the crossing)
+    h = copy.deepcopy(hist)
+    account = rng.choice(sorted({(x["ex"], x["ho"]) if x["t"] == "OUT" else (x["fex"], x["fho"]) for x in debits}))
+    own = [x for x in h["rows"] if (x["t"] == "OUT" and (x["ex"], x["ho"]) == account) or (x["t"] == "INTRA" and (x["fex"], x["fho"]) == account)]
+    r = max(own, key=lambda x: parse_ts(x["ts"]))
+    final = balances[account]["final"]
+    elsewhere = sum((b["final"] for a, b in balances.items() if a != account), Fraction(0))
+    if elsewhere > Fraction(1, 1000):
+        extra = Decimal(final.numerator) / Decimal(final.denominator) + Decimal(rng.randint(1, 5)) * Q11
+        if r["t"] == "OUT":
+            field = "cfee" if r["type"] == "FEE" else "cout"
+            r[field] = dstr(Decimal(r[field]) + extra)
+            r["cout_wf"] = None
+        else:
+            r["sent"] = dstr(Decimal(r["sent"]) + extra)
+            r["recv"] = dstr(Decimal(r["recv"]) + extra)
+        last = max(parse_ts(x["ts"]) for x in h["rows"])
+        amount = min(Decimal("0.5"), (Decimal(elsewhere.numerator) / Decimal(elsewhere.denominator) / 4).quantize(Q11))
+        if amount > 0:
+            spot = next(x["spot"] for x in h["rows"] if x.get("spot"))
+            h["rows"].append({"t": "OUT", "ts": fmt_ts(last + rng.choice((timedelta(microseconds=1), timedelta(days=3))), 0), "ex": account[0], "ho": account[1], "type": rng.choice(("SELL", "FEE", "GIFT")), "spot": spot, "cout": dstr(amount), "cfee": "0", "cout_wf": None, "fout_nf": None, "ffee": None, "uid": "dust-then-real", "notes": ""})
+            if h["rows"][-1]["type"] == "FEE":
+                h["rows"][-1]["cout"], h["rows"][-1]["cfee"] = "0", dstr(amount)
+            assign_rows(rng, h["rows"])
+            h["dust_then_real"] = True
+            result.append(h)
     return result
 
 
@@ -117,6 +146,8 @@ def _observe(ctx: Any, ip: Any, hist: Dict[str, Any], sched: Dict[int, str], all
     if from_s:
         ctx.count("runs_with_from_date")
     case = {"hist": hist, "schedule": sched_json(sched), "allow_negative": allow_negative, "to": to_s, "from": from_s, "kind": kind}
+    if hist.get("dust_then_real") and not allow_negative and od.verdict == "must_reject":
+        ctx.count("dust_then_real_overdraft_runs")
     ctx.tag("tag_kind", f"{kind}:{od.verdict}:{'n' if allow_negative else '-'}")
     nontrivial = False
     if allow_negative:
@@ -237,6 +268,8 @@ def coverage(merged: Dict[str, Any], tier: str) -> Dict[str, Any]:
             "negative_balances_reported_with_-n": c.get("with_n_negative_reported", 0),
             "rejections_naming_an_overdrawn_account": c.get("rejections_naming_an_overdrawn_account", 0),
             "cli_runs": c.get("cli_runs", 0),
+            "dust_then_real_overdraft_runs": c.get("dust_then_real_overdraft_runs", 0),
+            "cli_runs_with_in_fee_overdraft": c.get("cli_runs_with_in_fee_overdraft", 0),
         },
         "oracle_verdicts_by_kind": sorted(merged["sets"].get("tag_kind", ())),
     }
